@@ -325,6 +325,8 @@ def relate_unit():
     P = 'PolygonBase'
     E = 'Except Bool'
     insts = [
+        Inst('_is_on_segment', 'isOnSegment', [('coord', 'Pt'), ('start', 'Pt'), ('end', 'Pt')], 'Bool'),
+        Inst(f'{P}._touches_coordinate', 'touchesCoordinate', [('self', 'PolyS'), ('coord', 'Pt')], 'Bool'),
         Inst(f'{P}.contains_shape', 'containsMulti', [('self', 'PolyS'), ('shape', 'MultiA')], 'Bool'),
         Inst(f'{P}.contains_shape', 'containsPoint', [('self', 'PolyS'), ('shape', 'PtA')], 'Bool'),
         Inst(f'{P}.contains_shape', 'containsPoly', [('self', 'PolyS'), ('shape', 'PolyA')], E),
@@ -333,7 +335,6 @@ def relate_unit():
         Inst(f'{P}.intersects_shape', 'intersectsPoint', [('self', 'PolyS'), ('shape', 'PtA')], 'Bool'),
         Inst(f'{P}.intersects_shape', 'intersectsPoly', [('self', 'PolyS'), ('shape', 'PolyA')], E),
         Inst(f'{P}.intersects_shape', 'intersectsLine', [('self', 'PolyS'), ('shape', 'LineA')], E),
-        Inst('_is_on_segment', 'isOnSegment', [('coord', 'Pt'), ('start', 'Pt'), ('end', 'Pt')], 'Bool'),
         # GeoLineString as the receiver
         Inst('GeoLineString.contains_coordinate', 'lineContainsCoordinate', [('self', 'LineS'), ('coord', 'Pt')], 'Bool'),
         Inst('GeoLineString.contains_shape', 'lineContainsMulti', [('self', 'LineS'), ('shape', 'MultiA')], 'Bool'),
@@ -382,7 +383,6 @@ def relate_unit():
         ('PolyA', 'intersects_shape', ('PtS',)): ('ri {0} {1}', 'Bool'), ('LineA', 'intersects_shape', ('PtS',)): ('ri {0} {1}', 'Bool'),
         ('PolyS', 'edges', ()): ('edgesOf {0}', ER), ('PolyA', 'edges', ()): ('edgesOf {0}', ER),
         ('PolyS', 'contains_coordinate', ('Pt',)): ('cc {0} {1}', 'Bool'),
-        ('PolyS', '_touches_coordinate', ('Pt',)): ('tc {0} {1}', 'Bool'),
         ('PolyS', '__contains__', ('Pt',)): ('cc {0} {1}', 'Bool'), ('PolyA', '__contains__', ('Pt',)): ('cc {0} {1}', 'Bool'),
         ('LineA', '__contains__', ('Pt',)): ('cc {0} {1}', 'Bool'),
         ('PolyS', 'contains_shape', ('Any',)): ('rs {0} {1}', 'Bool'), ('PolyS', 'intersects_shape', ('Any',)): ('ri {0} {1}', 'Bool'),
